@@ -379,3 +379,101 @@ class ValueGen:
             else:
                 out.append(self.free.json_value(self.rng.choice([0, 1, 2, 3])))
         return out
+
+
+# ----------------------------------------------------------------------------- focused families
+
+LOOKALIKES = [1, 1.0, True, 0, 0.0, False, -0.0, [1], [1.0], [True], [0], [False], [[1]], [[1.0]], [[True]],
+              {"a": 1}, {"a": 1.0}, {"a": True}, {"a": [0]}, {"a": [False]}, {"a": 1, "b": 2}, {"b": 2, "a": 1},
+              "1", "", None, [], {}, [None], 2, 2.0, 1e0, 10 ** 20, 1e20]
+
+
+def families(rng: random.Random):
+    """Hand-designed (schema, values) families aimed at the interactions the properties name.
+    Deterministic skeleton + a few random picks from `rng`."""
+    pick = lambda n: [rng.choice(LOOKALIKES) for _ in range(n)]
+    # 1. uniqueItems x lookalike items
+    for _ in range(12):
+        yield {"uniqueItems": True}, [pick(rng.randint(2, 4)) for _ in range(6)] + [[[1], [1.0]], [{"a": 1}, {"a": 1.0}], [[True], [1]], [[0], [False]], [[-0.0], [0]]]
+    yield {"type": "array", "uniqueItems": True, "items": {"type": ["array", "object", "number", "boolean"]}}, [[[1], [1.0]], [[1], [True]], [{"a": 1, "b": 2}, {"b": 2, "a": 1}], [1, True], [1, 1.0], [[], {}]]
+    # 2. const / enum x lookalikes
+    for lit in LOOKALIKES[:24]:
+        yield {"const": lit}, LOOKALIKES[:24]
+    yield {"enum": [[1], {"a": True}, 0, "1"]}, LOOKALIKES
+    yield {"enum": [True, 2.0, [False], {"a": [0]}]}, LOOKALIKES
+    # 3. compositions with equal / lookalike / overlapping branches
+    branches = [{"type": "integer"}, {"type": "integer"}, {"type": "number"}, {"minimum": 1}, {"maximum": 5}, {"const": 1},
+                {"const": True}, {"const": 1.0}, {"type": "string"}, {}, True, False, {"multipleOf": 2}, {"enum": [1, 2]}]
+    vals = [1, 1.0, True, 0, 2, 3, 6, "a", None, 5, 5.5, [], {}]
+    for key in ("oneOf", "anyOf", "allOf"):
+        for _ in range(14):
+            yield {key: [rng.choice(branches) for _ in range(rng.choice([2, 2, 3]))]}, vals
+        yield {key: [{"type": "integer"}, {"type": "integer"}]}, vals
+        yield {key: [{"const": 1}, {"const": True}]}, vals
+        yield {"type": "integer", key: [{"minimum": 2}, {"maximum": 4}], "not": {"const": 3}}, vals
+        yield {key: [{"type": "object", "title": "A", "properties": {"x": {"type": "integer"}}},
+                     {"type": "object", "title": "A", "properties": {"x": {"type": "string"}}}]}, [{"x": 1}, {"x": "s"}, {"x": None}, {}, 1]
+    yield {"not": {"not": {"type": "string"}}}, vals
+    yield {"anyOf": [{"type": "string"}], "oneOf": [{"maxLength": 1}, {"minLength": 1}], "allOf": [{"pattern": "^a"}]}, ["a", "ab", "", "b", 1]
+    # 4. required x properties x additionalProperties x patternProperties
+    objs = [{}, {"a": 1}, {"a": "s"}, {"b": 1}, {"a": 1, "b": 2}, {"a": 1, "zz": 2}, {"ab": 1}, {"a": 1, "ab": "s"}, {"zz": None}, 1, [], {"a": None}]
+    for addl in (None, True, False, {"type": "integer"}, {"type": "string"}):
+        for req in (None, [], ["a"], ["a", "b"]):
+            for pat in (None, {"^a": {"type": "integer"}}, {"^a": {"type": "integer"}, "b$": {"maximum": 1}}):
+                s = {"properties": {"a": {"type": "integer"}, "b": {"default": 3}}}
+                if addl is not None:
+                    s["additionalProperties"] = addl
+                if req is not None:
+                    s["required"] = req
+                if pat is not None:
+                    s["patternProperties"] = pat
+                yield s, objs
+                if req and pat is None:
+                    yield {**s, "type": "object", "title": "Obj"}, objs
+    yield {"type": "object", "title": "R", "required": ["a"], "properties": {"a": {"type": "integer", "default": 1}}}, objs
+    yield {"required": ["a"], "properties": {"a": {"type": "integer", "default": 1}}}, objs
+    yield {"minProperties": 1, "maxProperties": 2}, objs
+    # 5. tuple items x additionalItems x contains
+    arrs = [[], [1], [1, "a"], [1, "a", None], [1, "a", 2], ["a", 1], [1, "a", 2, 3], [None], 1, {}]
+    for addl in (None, True, False, {"type": "integer"}, False):
+        for cont in (None, {"type": "null"}, {"const": 2}):
+            s = {"items": [{"type": "integer"}, {"type": "string"}]}
+            if addl is not None:
+                s["additionalItems"] = addl
+            if cont is not None:
+                s["contains"] = cont
+            yield s, arrs
+            yield {**s, "type": "array", "minItems": 1, "maxItems": 3}, arrs
+    yield {"additionalItems": False}, arrs
+    yield {"items": {"type": "integer"}, "additionalItems": False}, arrs
+    yield {"type": "array", "contains": {"type": "integer"}}, arrs
+    # 6. dependencies
+    yield {"dependencies": {"a": ["b"], "b": {"required": ["c"]}, "c": []}}, [{}, {"a": 1}, {"a": 1, "b": 2}, {"a": 1, "b": 2, "c": 3}, {"b": 1}, {"c": 1}, 1]
+    yield {"type": "object", "title": "D", "dependencies": {"a": {"properties": {"b": {"type": "integer"}}}}}, [{"a": 1, "b": "s"}, {"a": 1, "b": 1}, {"b": "s"}, {}]
+    # 7. numeric boundaries
+    nums = [0, 1, 1.0, 2, 2.0, 2.5, 3, -1, True, 4.0, 6, 7.5, 10 ** 20, 1e20, 5]
+    for kw in ("minimum", "maximum", "exclusiveMinimum", "exclusiveMaximum"):
+        for b in (2, 2.0, 2.5, 0):
+            yield {kw: b}, nums
+            yield {"type": "integer", kw: b}, nums
+    for m in (1, 2, 3, 5):
+        yield {"multipleOf": m}, nums
+        yield {"type": "number", "multipleOf": m}, nums
+    # 8. type lists
+    yield {"type": ["integer", "boolean"]}, nums + ["a", None]
+    yield {"type": ["number", "null"], "minimum": 1}, nums + [None]
+    yield {"type": ["string", "array"], "minLength": 2, "minItems": 2}, ["a", "ab", [], [1, 2], [1], 1]
+    # 9. propertyNames
+    yield {"propertyNames": {"pattern": "^a"}}, objs
+    yield {"propertyNames": {"maxLength": 1}}, objs
+    yield {"propertyNames": False}, objs
+    # 10. string lengths in code points
+    strs = ["", "a", "ab", "é", "😀", "😀😀", "é", "abc"]
+    for n in (0, 1, 2):
+        yield {"minLength": n}, strs
+        yield {"maxLength": n}, strs
+        yield {"type": "string", "minLength": n, "maxLength": n}, strs
+    yield {"pattern": "^.$"}, strs
+    yield {"format": "uuid"}, ["123e4567-e89b-12d3-a456-426614174000", "nope", 1]
+    yield {"format": "date-time"}, ["2020-01-01T00:00:00Z", "nope", 1]
+    yield {"format": "no-such-format"}, ["anything", 1]
